@@ -1,5 +1,11 @@
 package main
 
+import (
+	"regexp"
+
+	"golang.org/x/tools/go/ssa"
+)
+
 // Rows on the application life-cycle functions (stake / edit-stake / begin-unstake / finish-unstake),
 // written after the mutation run showed them uncovered. Shared by the properties they serve.
 
@@ -88,18 +94,33 @@ func appsUnstakeLifecycle(c *Ctx, P string) []Obligation {
 // the shortened slot back, or deletes the slot when nothing is left.
 func queueWriteBack(c *Ctx, P string) []Obligation {
 	var out []Obligation
-	for _, q := range []struct{ fn, newv, del, set string }{
-		{"(x/apps/keeper.Keeper).deleteUnstakingApplication", "phi:newApplications", kAp + `deleteUnstakingApplications\(k, ctx, val\.UnstakingCompletionTime\)`, kAp + `setUnstakingApplications\(k, ctx, val\.UnstakingCompletionTime, phi:newApplications\)`},
-		{"(x/nodes/keeper.Keeper).deleteUnstakingValidator", "phi:newValidators", kN + `deleteUnstakingValidators\(k, ctx, val\.UnstakingCompletionTime\)`, kN + `setUnstakingValidators\(k, ctx, val\.UnstakingCompletionTime, phi:newValidators\)`},
+	for _, q := range []struct{ fn, short, del, setPre string }{
+		{"(x/apps/keeper.Keeper).deleteUnstakingApplication", "deleteUnstakingApplication", kAp + `deleteUnstakingApplications\(k, ctx, val\.UnstakingCompletionTime\)`, kAp + `setUnstakingApplications\(k, ctx, val\.UnstakingCompletionTime, `},
+		{"(x/nodes/keeper.Keeper).deleteUnstakingValidator", "deleteUnstakingValidator", kN + `deleteUnstakingValidators\(k, ctx, val\.UnstakingCompletionTime\)`, kN + `setUnstakingValidators\(k, ctx, val\.UnstakingCompletionTime, `},
 	} {
-		short := q.fn[len(q.fn)-len("deleteUnstakingApplication"):]
-		if q.fn[3] == 'n' {
-			short = "deleteUnstakingValidator"
+		// the slice whose emptiness is tested is the slice written back, whatever it is called
+		fn := c.A.Fn(q.fn)
+		v := ""
+		if fn != nil {
+			re := regexp.MustCompile(`^eq\(0, builtin\.len\((.*)\)\)$`)
+			for _, b := range fn.Blocks {
+				if iff, ok := b.Instrs[len(b.Instrs)-1].(*ssa.If); ok {
+					if m := re.FindStringSubmatch(condAtom(iff.Cond).Str); m != nil {
+						v = m[1]
+					}
+				}
+			}
 		}
-		atom := `^eq\(0, builtin\.len\(` + q.newv + `\)\)$`
+		if v == "" {
+			o := c.obl(P, "queue."+q.short+".empty-slot-deleted", q.fn, "the remaining entries of the slot are tested for emptiness")
+			o.unresolved("no emptiness test of the remaining entries found in %s", q.fn)
+			out = append(out, *o)
+			continue
+		}
+		atom := `^eq\(0, builtin\.len\(` + regexp.QuoteMeta(v) + `\)\)$`
 		out = append(out,
-			c.edgeMust(P, "queue."+short+".empty-slot-deleted", q.fn, atom, true, `^`+q.del, 1, "a slot left empty is deleted"),
-			c.edgeMust(P, "queue."+short+".shortened-slot-written-back", q.fn, atom, false, `^`+q.set, 1, "a slot with entries left is written back without the removed address"),
+			c.edgeMust(P, "queue."+q.short+".empty-slot-deleted", q.fn, atom, true, `^`+q.del, 1, "a slot left empty is deleted"),
+			c.edgeMust(P, "queue."+q.short+".shortened-slot-written-back", q.fn, atom, false, `^`+q.setPre+regexp.QuoteMeta(v)+`\)`, 1, "a slot with entries left is written back — the very slice that was tested, i.e. the entries without the removed address"),
 		)
 	}
 	return out
